@@ -20,6 +20,11 @@ def h01_cancel(S, backend="mem", steps=3, pre=1):
                 ops_allowed=("enqueue-delayed", "consume", "ack", "nack", "reject", "requeue", "requeue-delayed", "advance"))
 
 
+def h01_revive(S, backend="redis", steps=6):
+    """Longer histories over the calls that move one message between categories (dead-letter, revive, hand back)."""
+    run_history(S, backend, steps=steps, pre=1, ops_allowed=("consume", "nack", "reject", "requeue"))
+
+
 _B = {"operations": "enqueue (immediate / due in 2 s), consume through each category, ack, nack, reject, requeue (immediate / delayed), clock advance 3 s, consumer finish",
       "clients": "well-behaved: terminal actions only on held messages, fresh ids", "queues/topics": "one queue, one topic, equal priority"}
 
@@ -43,6 +48,14 @@ HARNESSES = [
             stubs=["fake AMQP server (fakes/amqp.py): routing, DLX as declared by repid, expiry exactly at TTL; priorities not modelled"],
             outside=["RabbitMQ server semantics beyond the stub"]),
 ]
+for _be in ("mem", "redis", "rabbit"):
+    HARNESSES.append(Harness(
+        name=f"H01-{_be}-revive", scenario=h01_revive, workers=16, budget_s=900,
+        params={"quick": {"backend": _be, "steps": 5 if _be == "rabbit" else 6}, "thorough": {"backend": _be, "steps": 7}},
+        bounds={"history": "6 (quick; RabbitMQ 5) / 7 (thorough) calls from {consume through each category, nack, reject, requeue} on one pre-enqueued message: "
+                           "covers dead-letter -> read through DEAD -> requeue (revive) -> consume -> hand back"},
+        covers=["requeue", "reject-NORMAL", "delivered-DEAD"],
+        stubs=[] if _be == "mem" else [f"fake {_be} server"]))
 for _be in ("mem", "redis", "rabbit"):
     HARNESSES.append(Harness(
         name=f"H01-{_be}-cancel", scenario=h01_cancel, workers=16, budget_s=900,
